@@ -6,6 +6,7 @@ import (
 	"errors"
 	"fmt"
 	"io"
+	"math"
 	"reflect"
 	"time"
 	"unicode/utf8"
@@ -624,7 +625,11 @@ func (c *UintConverter) To(obj Object) (interface{}, error) {
 }
 
 func (c *UintConverter) From(obj interface{}) (Object, error) {
-	return NewInt(int64(obj.(uint))), nil
+	v := obj.(uint)
+	if v > math.MaxInt64 {
+		return nil, errz.TypeErrorf("type error: uint value %d overflows int", v)
+	}
+	return NewInt(int64(v)), nil
 }
 
 // Uint8Converter converts between uint8 and *Int.
@@ -704,7 +709,11 @@ func (c *Uint64Converter) To(obj Object) (interface{}, error) {
 }
 
 func (c *Uint64Converter) From(obj interface{}) (Object, error) {
-	return NewInt(int64(obj.(uint64))), nil
+	v := obj.(uint64)
+	if v > math.MaxInt64 {
+		return nil, errz.TypeErrorf("type error: uint64 value %d overflows int", v)
+	}
+	return NewInt(int64(v)), nil
 }
 
 // Float32Converter converts between float32 and *Float.
